@@ -8,7 +8,8 @@ import os
 from ..cfg import WithCtx
 from ..core import rule, VERIF
 from ..dataflow import DefUse
-from ..program import AnalysisError, Program, dotted, src, walk_local
+from ..program import AnalysisError, Program, dotted, src
+from ..core import walk_local  # inline-aware
 from .common import where
 from .storelib import facts, is_write_open, expr_is_tmp_path, node_desc
 
